@@ -309,7 +309,8 @@ Section Frames.
     unfold find_backend_by_dialog. apply mframe_bind; [exact mframe_get_method|]. intros meth.
     destruct (_ && _)%bool; [apply mframe_ret|].
     apply mframe_bind; [apply mframe_try; exact mframe_get_dialog|]. intros [d|]; [|apply mframe_ret].
-    destruct (pins_get (e_now e) d (ps_pins p)) as [pins1 ob].
+    destruct (pins_get (e_now e) d (ps_pins p)) as [pins1 ob]. cbv zeta.
+    destruct (_ && _)%bool; [apply mframe_ret|].
     apply mframe_bind; [apply mframe_try; intros m; apply frame_refl|]. intros ss. apply mframe_ret.
   Qed.
 End Frames.
@@ -674,7 +675,8 @@ Proof.
   unfold find_backend_by_dialog. apply mpost_bind. intros meth.
   destruct (_ && _)%bool; [apply mpost_ret, same_rr_refl|].
   apply mpost_bind. intros [d|]; [|apply mpost_ret, same_rr_refl].
-  destruct (pins_get (e_now e) d (ps_pins p)) as [pins1 ob].
+  destruct (pins_get (e_now e) d (ps_pins p)) as [pins1 ob]. cbv zeta.
+  destruct (_ && _)%bool; [apply mpost_ret; cbn [fst]; repeat split|].
   apply mpost_bind. intros ss. apply mpost_ret. cbn [fst].
   destruct (_ && _)%bool; repeat split.
 Qed.
